@@ -241,7 +241,10 @@ func Statement(g *G) Stmt {
 			kinds = append(kinds, "merge", "merge")
 		}
 		if g.F.MySQL {
-			kinds = append(kinds, "replace", "show", "describe")
+			kinds = append(kinds, "replace")
+			if !g.F.NoShowDescribe {
+				kinds = append(kinds, "show", "describe")
+			}
 		}
 		if g.F.DDL {
 			kinds = append(kinds, "create_table", "create_table", "create_index", "create_view", "create_materialized_view", "drop", "truncate", "refresh")
